@@ -24,7 +24,7 @@ import (
 )
 
 const (
-	watchdog  = 2 * time.Second
+	watchdog  = 20 * time.Second
 	longProbe = 100 * time.Millisecond
 	shortMax  = int64(50 * time.Millisecond)
 	longMin   = int64(59 * time.Minute)
@@ -199,7 +199,7 @@ func (o sleepObs) String() string {
 	case o.cancelled && o.released:
 		return "still blocked at the end of the window; returned " + o.relCond + " after the driver cancelled the context"
 	case o.cancelled:
-		return "still blocked at the end of the window and for 2 s after the driver cancelled the context"
+		return "still blocked at the end of the window and for 20 s after the driver cancelled the context"
 	}
 	return "still blocked at the end of the window (context not cancellable; goroutine abandoned)"
 }
